@@ -303,10 +303,9 @@ func runC06(rc *fw.RunCtx) {
 	}
 
 	// phase P: a seeded serial prefix, then every task is released at once and
-	// runs truly in parallel; the cancel lands after a short real-time spin.
-	// What is checked stays a quiescence statement: once nothing can move any
-	// more (synctest) and the fake clock has run to its horizon, a task that is
-	// still blocked will never exit.
+	// runs truly in parallel; the cancel lands after a short real-time spin and
+	// the window is closed again. What is checked stays the same bounded-
+	// liveness statement, evaluated under the baton scheduler.
 	parallel := !useDeadline && !siteAimed && (f.Chance(1, 6) || (prog.SharedSenders && f.Chance(2, 3)))
 	if stepCancel != nil {
 		if parallel {
@@ -330,6 +329,10 @@ func runC06(rc *fw.RunCtx) {
 			}
 			rc.Hit("fault_cancel")
 			cancel()
+			// back to the baton: busy tasks park at their next instruction, so
+			// the step-bounded liveness oracle below applies unchanged; tasks
+			// stuck inside a primitive stay where they are
+			s.EndFreeRun()
 		})
 	}
 	out := &EvalOutcome{}
